@@ -241,6 +241,59 @@ func firstFeature(diff string) string {
 	return "other"
 }
 
+// checkBigArrays: arrays and lists around the sizes at which a decoder that grows its buffers step by step changes
+// step (the generated documents stay far below them): the values, the byte count and what follows must be exact.
+func checkBigArrays(c *vm.Ctx, r *vm.Rand) {
+	type bigCase struct {
+		tag   byte
+		sizes []int
+	}
+	cases := []bigCase{
+		{refnbt.ByteArray, []int{65535, 65536, 65537, 70000, 100000, 131072, 131073, 200000, 300001}},
+		{refnbt.IntArray, []int{4095, 4096, 4097, 5000, 8192, 8193, 10000, 70000}},
+		{refnbt.LongArray, []int{4095, 4096, 4097, 5000, 8192, 8193, 10000, 70000}},
+		{refnbt.List, []int{1023, 1024, 1025, 3000, 5000}},
+	}
+	for _, bc := range cases {
+		for _, n := range bc.sizes {
+			v := &refnbt.Value{Tag: bc.tag}
+			switch bc.tag {
+			case refnbt.ByteArray:
+				v.Bytes = r.Bytes(n)
+			case refnbt.IntArray:
+				v.Ints = make([]int32, n)
+				for i := range v.Ints {
+					v.Ints[i] = int32(r.Uint64())
+				}
+			case refnbt.LongArray:
+				v.Longs = make([]int64, n)
+				for i := range v.Longs {
+					v.Longs[i] = int64(r.Uint64())
+				}
+			default:
+				v.Elem = refnbt.Short
+				for i := 0; i < n; i++ {
+					v.List = append(v.List, refnbt.Sh(int16(r.Uint64())))
+				}
+			}
+			for _, wrapped := range []bool{false, true} {
+				tree := v
+				if wrapped {
+					tree = &refnbt.Value{Tag: refnbt.Compound, Comp: []refnbt.Entry{{Name: "a", V: refnbt.In(1)}, {Name: "big", V: v}, {Name: "z", V: refnbt.St("after")}}}
+				}
+				d := &decodeCase{tree: tree, network: r.Bool(), trailer: []byte{1, 2, 3, 4, 5, 6, 7, 8, 9}}
+				if !d.network {
+					d.name = "r"
+				}
+				d.doc = refnbt.Encode(tree, d.name, d.network)
+				c.Eval(vm.HashStr("big", refnbt.TagName(bc.tag), fmt.Sprint(n, wrapped)), true)
+				checkDecode(c, r, d, map[string]bool{})
+			}
+			c.Cover("big-array." + refnbt.TagName(bc.tag))
+		}
+	}
+}
+
 // checkAwkward: values the documented mapping does not describe - lists whose interface-typed elements have
 // different kinds, strings / keys / root names at and beyond the 16-bit length field. The mapping oracle has
 // nothing to say about them, but the statement still does: whatever the encoder ACCEPTS must come out as one
@@ -489,6 +542,9 @@ func run(c *vm.Ctx) {
 	nEnc := c.Scale(30000, 600000)
 	for i := 0; i < nEnc; i++ {
 		checkEncode(c, tg)
+	}
+	if c.Shard == 0 {
+		checkBigArrays(c, c.Rand("big-arrays"))
 	}
 	ar := c.Rand("awkward")
 	for i := 0; i < c.Scale(2000, 20000); i++ {
